@@ -74,7 +74,9 @@ def numpyise(rng, args, kwargs, single=True):
     return tuple(conv(a) for a in args), {k: conv(v) for k, v in kwargs.items()}, n[0]
 
 
-STRICT_PROBE = bool(os.environ.get('VERIF_STRICT_PROBE'))
+STRICT_PROBE = os.environ.get('VERIF_STRICT_PROBE') or False  # '1': floating-point errors + warnings, 'warnings': warnings only
+# entry points that rely on silent floating-point exceptions (underflow) but never emit a warning on the unchanged tree (probe: 'warnings', seeds 0-3)
+STRICT_WARN_OK = {'quantum_computation.sampling'}
 # entry points whose unchanged implementation was never seen to raise under np.errstate(all='raise') (probe runs, seeds 0-3)
 try:
     import json as _json
@@ -107,6 +109,8 @@ def call(api, fn, *args, prop=None, tags=(), detail=None, refusals=(), refusal_p
             strict = True
         elif api in STRICT_FP_OK and c.aux_rng.random() < 0.12:
             strict = True
+        elif api in STRICT_WARN_OK and c.aux_rng.random() < 0.12:
+            strict = 'warnings'
     try:
         if strict:
             # the caller's floating-point error state is the caller's business: with np.seterr(all='raise') a silent 0/0 or overflow inside
@@ -114,9 +118,14 @@ def call(api, fn, *args, prop=None, tags=(), detail=None, refusals=(), refusal_p
             # floating-point exceptions (STRICT_FP_OK, established with VERIF_STRICT_PROBE=1 over several seeds)
             c.events['called_with_strict_floating_point_error_state:' + api] += 1
             import warnings as _w
-            with np.errstate(all='raise'), _w.catch_warnings():
-                _w.simplefilter('error')  # (warnings turned into errors: python -W error, pytest filterwarnings = error)
-                r = fn(*args, **kwargs)
+            if strict == 'warnings' or STRICT_PROBE == 'warnings':
+                with _w.catch_warnings():
+                    _w.simplefilter('error')
+                    r = fn(*args, **kwargs)
+            else:
+                with np.errstate(all='raise'), _w.catch_warnings():
+                    _w.simplefilter('error')  # (warnings turned into errors: python -W error, pytest filterwarnings = error)
+                    r = fn(*args, **kwargs)
         else:
             r = fn(*args, **kwargs)
     except refusals as e:
